@@ -48,33 +48,33 @@ package util
 
 //@ func (*Queue).Enqueue [C20]
 //@   requires RI(q)
-//@   modifies q.queue, q.depth
+//@   modifies q.queue, q.depth, chan(q.depthChan)
 //@   ensures #ri RI(q)
 //@   ensures #fifo-tail q.queue == old(q.queue) ++ strs(b)
 
 //@ func (*Queue).Requeue [C20]
 //@   requires RI(q)
-//@   modifies q.queue, q.depth
+//@   modifies q.queue, q.depth, chan(q.depthChan)
 //@   ensures #ri RI(q)
 //@   ensures #put-back-at-front q.queue == strs(b) ++ old(q.queue)
 
 //@ func (*Queue).Dequeue [C20]
 //@   requires RI(q)
-//@   modifies q.queue, q.depth
+//@   modifies q.queue, q.depth, chan(q.depthChan)
 //@   ensures #ri RI(q)
 //@   ensures #empty-yields-nothing len(old(q.queue)) == 0 ==> len(result) == 0 && q.queue == old(q.queue)
 //@   ensures #head len(old(q.queue)) > 0 ==> result == old(q.queue)[0] && q.queue == old(q.queue)[1:len(old(q.queue))]
 
 //@ func (*Queue).DequeueAll [C20]
 //@   requires RI(q)
-//@   modifies q.queue, q.depth
+//@   modifies q.queue, q.depth, chan(q.depthChan)
 //@   ensures #ri RI(q)
 //@   ensures #empty-yields-nothing len(old(q.queue)) == 0 ==> len(result) == 0 && q.queue == old(q.queue)
 //@   ensures #everything-in-order len(old(q.queue)) > 0 ==> result == concatAll(old(q.queue)) && len(q.queue) == 0
 
 //@ func (*Queue).getDepth [C20]
 //@   requires RI(q)
-//@   modifies nothing
+//@   modifies chan(q.depthChan)
 //@   ensures #ri RI(q)
 //@   ensures #depth result == q.depth && result == len(q.queue)
 
